@@ -37,8 +37,8 @@ CHECKS.update({
  "C09": dict(engine="E3 tree + responding bus", sec="4/C09", technique="exhaustive enumeration of (sign type, address, page list, retry schedule, unacknowledged attempt) against the real controller, judged by a trace predicate",
    text="Every combination of the 11 sign types x 4 addresses x retry schedules {S,FS,FFS,FFF} x {configure, send_pages over a table of page lists: 0..16 pages, every page size 16k bytes for k=1..24 (64 thorough) and 255,256,257,4095,4096 (the 16-bit offset limit), mixed sizes, a list of exactly 65535 chunks} x {every attempt acknowledged, or the n-th receive request answered by silence / another operation's ack / a foreign ack / a report} is run on the real Sign against a recording bus; the recorded conversation is judged by a trace predicate (ack before data in every attempt, per-item offsets 0,16,32.., chunks <= 16 bytes, concatenation == item, count == chunks since the request, query after count).",
    note="Transfers above 65535 chunks or pages above 64 KiB are outside the property (16-bit fields); contents are position-identifying fills."),
- "C10": dict(engine="E3 tree", sec="4/C10", technique="stateless exhaustive reply-tree enumeration (every reply of a 42-symbol alphabet at every step, by prefix re-execution of the real operation) compared with a reference controller automaton",
-   text="The complete reply tree of configure, configure_if_needed, send_pages([],[p],[p,q]), show_loaded_page, load_next_page and shut_down is enumerated on the real Sign: at every step every one of 42 replies (13 states x own/foreign, 6 acks x own/foreign, none, goodbye, unknown frame, bus error) is offered until the operation returns (3.5 M leaves quick; polling loops cut at a stated horizon, cut prefixes still checked). Every leaf's exact message list and outcome class is compared with a reference automaton of the documented protocol, and a bus error must be the injected one.",
+ "C10": dict(engine="E3 tree", sec="4/C10", technique="stateless exhaustive reply-tree enumeration (every reply of a 47-symbol alphabet at every step, by prefix re-execution of the real operation) compared with a reference controller automaton",
+   text="The complete reply tree of configure, configure_if_needed, send_pages([],[p],[p,q]), show_loaded_page, load_next_page and shut_down is enumerated on the real Sign: at every step every one of 47 replies (13 states x own/foreign, 6 acks x own/foreign, none, goodbye, unknown frame, 6 kinds of bus failure) is offered until the operation returns (3.5 M leaves quick; polling loops cut at a stated horizon, cut prefixes still checked). Every leaf's exact message list and outcome class is compared with a reference automaton of the documented protocol, and a bus error must be the injected one.",
    note="Trusts the ~120-line reference automaton; one foreign address and one unknown frame per run; polling horizon 9/12."),
  "C11": dict(engine="E3 tree", sec="4/C11", technique="the same exhaustive reply-tree enumeration as C10, judged by conversation invariants I1-I5 instead of a reference conversation",
    text="On every leaf of the same complete reply trees: I1 success only if the report concluding the final transfer is the own-address 'received' state; I2 nothing is sent after a bus error, a reply to a no-reply message, or a non-matching answer to a request, and the result is the bus error / a protocol error; I3 at most 3 transfer attempts, each retry directly preceded by the own-address 'failed' report; I4 every addressed message carries the own address; I5 (metamorphic) replacing foreign-address replies by an unrelated frame changes neither the message list nor the outcome class.",
